@@ -122,6 +122,28 @@ func (c *Ctx) PART(rule string) []report.Obligation {
 				continue
 			}
 			skip := skipsBlock(f, l.rng.Block())
+			// ... and the names iterated are the names given (the parameter itself, not a filtered copy)
+			for b := range l.region {
+				for _, in := range b.Instrs {
+					ci, ok := in.(ssa.CallInstruction)
+					if !ok {
+						continue
+					}
+					bi, ok := ci.Common().Value.(*ssa.Builtin)
+					if !ok || bi.Name() != "delete" || loadedField(ci.Common().Args[0]) != "DependsOn" {
+						continue
+					}
+					fromParam := false
+					if ld, ok := ci.Common().Args[1].(*ssa.UnOp); ok {
+						if ia, ok := ld.X.(*ssa.IndexAddr); ok {
+							_, fromParam = ia.X.(*ssa.Parameter)
+						}
+					}
+					if !fromParam && skip == "" {
+						skip = "the names whose dependencies are stripped are not read from the names parameter but from " + c.P.KeyTerm(ci.Common().Args[1], 3)
+					}
+				}
+			}
 			out = append(out, verdict(skip == "", rule+"-DEP", "WithServicesDisabled :: for every name given", c.P.InstrPos(l.rng),
 				"every iteration over the names runs the range that strips the dependencies", "a name can be skipped before the dependencies on it are stripped ("+skip+"): services keep depending on a service that is not enabled"))
 		}
@@ -172,8 +194,71 @@ func (c *Ctx) PART(rule string) []report.Obligation {
 				}
 			}
 		}
+		// second shape: the names that are not selected are collected in the range over Services (on the
+		// not-found edge of the lookup in the selected set) and handed to one WithServicesDisabled call
+		if !good {
+			for _, cs := range c.callsTo(f, "types.(*Project).WithServicesDisabled") {
+				if len(cs.Common().Args) < 2 {
+					continue
+				}
+				var app *ssa.Call
+				seen := map[ssa.Value]bool{}
+				var find func(v ssa.Value, d int)
+				find = func(v ssa.Value, d int) {
+					if d == 0 || seen[v] || app != nil {
+						return
+					}
+					seen[v] = true
+					switch x := v.(type) {
+					case *ssa.Phi:
+						for _, e := range x.Edges {
+							find(e, d-1)
+						}
+					case *ssa.Call:
+						if bi, ok := x.Call.Value.(*ssa.Builtin); ok && bi.Name() == "append" {
+							app = x
+						}
+					}
+				}
+				find(cs.Common().Args[1], 5)
+				if app == nil {
+					continue
+				}
+				for _, l := range findMapLoops(f) {
+					if loadedField(l.rng.X) != "Services" || !l.region[app.Block()] {
+						continue
+					}
+					// the appended element is the iteration key
+					isKey := false
+					if sl, ok := app.Call.Args[1].(*ssa.Slice); ok {
+						if al, ok := sl.X.(*ssa.Alloc); ok {
+							for _, r := range *al.Referrers() {
+								if ia, ok := r.(*ssa.IndexAddr); ok {
+									for _, rr := range *ia.Referrers() {
+										if st, ok := rr.(*ssa.Store); ok && l.isIterKey(st.Val) {
+											isKey = true
+										}
+									}
+								}
+							}
+						}
+					}
+					notSelected := factHolds(app.Block(), func(cond ssa.Value, val bool) bool {
+						ex, ok := cond.(*ssa.Extract)
+						if !ok || ex.Index != 1 || val {
+							return false
+						}
+						lk, ok := ex.Tuple.(*ssa.Lookup)
+						return ok && l.isIterKey(lk.Index)
+					})
+					if isKey && notSelected {
+						good = true
+					}
+				}
+			}
+		}
 		out = append(out, verdict(good, rule+"-3", "WithSelectedServices :: each service kept or disabled", c.P.Pos(f.Pos()),
-			"inside the range over Services a selected service is stored into the new Services map, any other is passed to WithServicesDisabled", "a service that is not selected is neither kept nor moved to DisabledServices"))
+			"inside the range over Services every name that is not in the selected set is passed to WithServicesDisabled (directly, or collected and passed in one call); the others stay in Services", "a service that is not selected is neither kept nor moved to DisabledServices"))
 	} else {
 		out = append(out, anchorViolation(rule+"-3", "types.(*Project).WithSelectedServices"))
 	}
